@@ -1,5 +1,5 @@
 (* Properties/C07.v — Scaling stays within bounds and never removes a shard still in use. *)
-From KV Require Import Base.Util Base.AMap Model.Coordinator Model.CoordCheck Proofs.CoordCycle.
+From KV Require Import Base.Util Base.AMap Base.Sched Model.Coordinator Model.CoordCheck Proofs.CoordBasics Proofs.CoordCycle Proofs.CoordC07.
 Local Open Scope list_scope.
 Local Open Scope Z_scope.
 
@@ -16,3 +16,37 @@ Theorem C07_early_request_raises : forall o i sch r rest,
   Z.of_nat (length (i_shards i)) < r.
 Proof. exact c07_early_raises. Qed.
 Print Assumptions C07_early_request_raises.
+
+(* no request - early or final - is lower than the position of a shard that is in use: not in sync, never idle or not
+   idle for longer than max-idle-time, or holding a target when planning ends (kept, or given one in this very cycle
+   by relief, assignment or a scale-down move).  "Holds a target at the start" falls under "never idle": a sidecar
+   reports idle-since only while nothing is assigned (C10_idle_update), see C07_holding_shard_kept. *)
+Theorem C07_keeps_used : forall o i sch r k,
+  Z.of_nat (length (i_shards i)) <= max_shard o ->
+  In r (o_scales (cycle o i sch)) ->
+  (k < length (i_shards i))%nat ->
+  (insync i k = false \/
+   si_idle (info_at i k) = None \/
+   (exists age, si_idle (info_at i k) = Some age /\ age <= max_idle o) \/
+   keys_at (o_plan (cycle o i sch)) k <> []) ->
+  Z.of_nat (S k) <= r.
+Proof. exact c07_keeps_used. Qed.
+Print Assumptions C07_keeps_used.
+
+Theorem C07_holding_shard_kept : forall o i sch r k,
+  Z.of_nat (length (i_shards i)) <= max_shard o ->
+  In r (o_scales (cycle o i sch)) ->
+  (k < length (i_shards i))%nat ->
+  reported i k <> [] -> (forall age, si_idle (info_at i k) = Some age -> reported i k = []) ->
+  Z.of_nat (S k) <= r.
+Proof. exact c07_holding_kept. Qed.
+Print Assumptions C07_holding_shard_kept.
+
+(* no request is below the current count when max-idle-time is 0 or when more space is needed in that cycle *)
+Theorem C07_no_shrink : forall o i sch r,
+  Z.of_nat (length (i_shards i)) <= max_shard o ->
+  In r (o_scales (cycle o i sch)) ->
+  max_idle o = 0 \/ st_need (run_stages o i (sst_of sch)) <> (0, 0) ->
+  Z.of_nat (length (i_shards i)) <= r.
+Proof. exact c07_no_shrink. Qed.
+Print Assumptions C07_no_shrink.
